@@ -58,6 +58,37 @@ func sendsOnParam(P *core.Program, fn *ssa.Function, idx int, depth int) []ssa.I
 	return out
 }
 
+// mayDropOnParam: fn (or a module helper it hands the channel to) sends on its
+// idx-th parameter inside a select that has a default case.
+func mayDropOnParam(P *core.Program, fn *ssa.Function, idx int, depth int) bool {
+	if depth > 4 || idx >= len(fn.Params) {
+		return false
+	}
+	par := fn.Params[idx]
+	drop := false
+	an.Instrs(fn, func(in ssa.Instruction) {
+		switch x := in.(type) {
+		case *ssa.Select:
+			for _, st := range x.States {
+				if st.Dir == types.SendOnly && resolveFree(st.Chan) == ssa.Value(par) && !x.Blocking {
+					drop = true
+				}
+			}
+		case *ssa.Call:
+			sc := an.StaticCallee(&x.Call)
+			if sc == nil || !P.InModule(sc) {
+				return
+			}
+			for i, a := range x.Call.Args {
+				if an.Unwrap(a) == ssa.Value(par) && mayDropOnParam(P, sc, i, depth+1) {
+					drop = true
+				}
+			}
+		}
+	})
+	return drop
+}
+
 type gate struct {
 	fn       *ssa.Function
 	recvIdx  int // parameter: chan<- ClientMsg
@@ -238,9 +269,25 @@ func runGateOneNotice(c *core.Ctx) {
 		fwd[s] = true
 	}
 	notices := map[ssa.Instruction]bool{}
+	var droppable []string
 	for _, s := range sendsOnParam(P, fn, g.sendIdx, 0) {
 		notices[s] = true
+		// the rejection must actually be delivered: a send that gives up when the writer is
+		// busy (select with a default case) loses it
+		if call, ok := s.(*ssa.Call); ok {
+			sc := an.StaticCallee(&call.Call)
+			for i, a := range call.Call.Args {
+				if sc != nil && an.Unwrap(a) == ssa.Value(fn.Params[g.sendIdx]) && mayDropOnParam(P, sc, i, 0) {
+					droppable = append(droppable, fmt.Sprintf("%s at %s", sc.Name(), P.Pos(call.Pos())))
+				}
+			}
+		}
+		if sel, ok := s.(*ssa.Select); ok && !sel.Blocking {
+			droppable = append(droppable, "select with default at "+P.Pos(sel.Pos()))
+		}
 	}
+	c.Check(len(droppable) == 0 && len(notices) > 0, nil, fname(c, fn), "rejection-delivery", P.Pos(fn.Pos()), fmt.Sprintf("all %d rejection sends block until the writer takes the message (or the connection ends)", len(notices)),
+		"a rejection is sent with a non-blocking send ("+strings.Join(droppable, "; ")+"): when the write loop is busy the NOTICE is dropped and the bad frame gets no answer")
 	nPaths, nFwd, nRej, nErr := 0, 0, 0, 0
 	var bad []string
 	for _, rb := range an.ReturnBlocks(fn) {
